@@ -1,5 +1,5 @@
 (** Property C14 — the back end is total: the panic-site inventory of the model. *)
-From Tx3 Require Import Base Tir Reduce PlutusData Compile Compile_proofs NoPanic.
+From Tx3 Require Import Base Tir Reduce PlutusData Compile Compile_proofs NoPanic Compile_accounts.
 
 Theorem C14_hash_construction_total : forall n b s, hash_from n b <> Panic s /\ hash_from n b <> Overflow s.
 Proof. exact hash_from_no_panic. Qed.
@@ -32,6 +32,12 @@ Proof. exact tx_visit_never_panics. Qed.
 Theorem C14_np_is_no_panic : forall A (x : outcome A), np x <-> (forall s, x <> Panic s /\ x <> Overflow s).
 Proof. intros A x. destruct x; cbn; split; try tauto; try (intros _ s0; split; discriminate); intros H; destruct (H site) as [H1 H2]; congruence. Qed.
 
+(** the ledger order of reward accounts is defined on every byte string - also on the empty
+    account that a credential without delegation part gives, and on accounts of any length:
+    sorting neither loses nor invents an account, whatever the template supplies *)
+Theorem C14_reward_sort_total_on_any_account : forall (l : list bytes) (x : bytes), x ∈ sort_accts l <-> x ∈ l.
+Proof. exact sort_accts_perm. Qed.
+
 Print Assumptions C14_hash_construction_total.
 Print Assumptions C14_number_conversions_total.
 Print Assumptions C14_int_arithmetic_total.
@@ -41,3 +47,4 @@ Print Assumptions C14_reduce_never_panics.
 Print Assumptions C14_tx_reduce_never_panics.
 Print Assumptions C14_compiler_ops_never_panic.
 Print Assumptions C14_np_is_no_panic.
+Print Assumptions C14_reward_sort_total_on_any_account.
